@@ -326,6 +326,9 @@ def aggregate(prop, plan, results):
                 k = "C%02d:%s" % (pn, v.get("monitor"))
                 cross[k] = cross.get(k, 0) + 1
         real_reps = [x for x in reps if not x["unsupported"]]
+        if vl:
+            # after a monitor violation the harness abandons (mem::forget) the pool: leak reports of that process are a consequence
+            real_reps = [x for x in real_reps if "leak" not in x["kind"].lower() and "lost" not in x["kind"]]
         for rep in real_reps:
             reports.append({"flavour": fl, **rep})
             h = hists[-1] if hists else {}
@@ -352,8 +355,9 @@ def aggregate(prop, plan, results):
             bf["shards_ok"] += 1
         for s in stat:
             cov = s.get("cov")
-            if cov and job.get("group") and not vl:
-                digests.setdefault((job["group"], r["shard"]), {})[job["flavour"]] = (cov.get("digest"), cov.get("steps"), base_args, r["seed"])
+            if cov and job.get("group"):
+                first = ("VIOLATION:" + signature(vl[0]) + ":" + str(vl[0].get("hist"))) if vl else None
+                digests.setdefault((job["group"], r["shard"]), {})[job["flavour"]] = (first or cov.get("digest"), cov.get("steps"), base_args, r["seed"], (vl[0].get("msg") if vl else None))
             if cov:
                 bf["steps"] += cov.get("steps", 0)
                 for pc in cov.get("props", []):
@@ -402,7 +406,7 @@ def aggregate(prop, plan, results):
                 any_fl = sorted(m)[0]
                 viols.append({
                     "property": prop, "engine": "explore", "flavour": any_fl, "seed": m[any_fl][3], "monitor": "cross-config-digest",
-                    "message": "observable trace digest differs between configurations for %s shard %d: %s" % (g, sh, {k: v[0] for k, v in m.items()}),
+                    "message": "behaviour differs between configurations for %s shard %d (same seeds): %s%s" % (g, sh, {k: v[0] for k, v in m.items()}, "".join(" | %s: %s" % (k, v[4][:300]) for k, v in m.items() if len(v) > 4 and v[4])[:900]),
                     "args": m[any_fl][2], "signature": "cross-config-digest:%s" % g,
                 })
         counters["configurations_compared"] = max((len(m) for m in digests.values()), default=0)
